@@ -86,7 +86,7 @@ CHECKS = {
          "DESIGN.md §4 C20"),
  "C18": ("offline checker over recorded event logs: generated histories of TZ changes, sleeps and conversions run in child processes (3 of 4 in a private mount namespace with a controlled /etc/localtime); each step is logged with SystemTime stamps before/after and every conversion is checked against the answers of the admissible environment states computed from measured stamps and the documented source precedence (R-tz)",
          "48 (thorough 600) histories of 10-30 steps cover every source kind (absolute path, :path, zone name, :name, POSIX rule, empty, unreadable, non-TZif, garbage, unset), every change kind (env->env, env->unset, unset->env, valid->garbage->valid, back to an earlier value), same-thread conversions within and beyond one second of a change and fresh-thread conversions, under four /etc/localtime configurations; thorough adds stress runs with a rotating TZ. A few hundred to a few thousand conversions per run: real sleeps bound the volume.",
-         "Trusted: R-tz resolution of each TZ value; stamps bracket chrono's own clock reads so load can only weaken a run. Only fixed-offset or far-from-transition instants are queried, so a swap of the UTC/local lookup direction is invisible here (C05's public route sees it). If unshare/mount is unavailable only the host /etc configuration is exercised (reported in evidence).",
+         "Trusted: R-tz resolution of each TZ value; stamps bracket chrono's own clock reads so load can only weaken a run. Query instants: one where all configured sources differ, one wall-clock second far from any transition, and one instant shortly before a DST start of the configured rule zones (so a lookup in the wrong direction shows). If unshare/mount is unavailable only the host /etc configuration is exercised (reported in evidence).",
          "DESIGN.md §4 C18"),
 }
 NOT_YET = {}
